@@ -1,7 +1,133 @@
 package main
 
-// validateNatively concretises sampled symbolic paths and runs them through the real build (go test -overlay),
-// comparing the engine's predicted observable outcome with the real one. Returns the number of paths that agreed.
+import (
+	"encoding/json"
+	"fmt"
+	"os"
+	"os/exec"
+	"path/filepath"
+	"regexp"
+	"strconv"
+	"strings"
+)
+
+// validateNatively concretises sampled passing symbolic paths and runs them through the real build (go test -overlay
+// with a native template from /verif/replay/native), comparing the engine's predicted observable outcome with the real
+// one. Returns the number of paths that agreed and a note; a note starting with MISMATCH makes the check inconclusive
+// (the interpreter, a model or an axiom is wrong - never reported as a violation of go-plugin).
 func validateNatively(spec *PropSpec, results []*RunResult, tier, id string) (int, string) {
-	return 0, ""
+	total, notes := 0, []string{}
+	for _, rs := range spec.Runs {
+		if rs.Native == "" {
+			continue
+		}
+		for _, res := range results {
+			if res.Cfg.Name != rs.Name {
+				continue
+			}
+			n, note := validateRun(rs.Native, res, id)
+			total += n
+			if note != "" {
+				notes = append(notes, rs.Name+": "+note)
+			}
+		}
+	}
+	return total, strings.Join(notes, "; ")
 }
+
+func bvInt(s string) int64 {
+	s = strings.TrimSpace(s)
+	if strings.HasPrefix(s, "#x") {
+		u, _ := strconv.ParseUint(s[2:], 16, 64)
+		return int64(u)
+	}
+	if s == "true" {
+		return 1
+	}
+	n, _ := strconv.ParseInt(s, 10, 64)
+	return n
+}
+
+func validateRun(template string, res *RunResult, id string) (int, string) {
+	var cases []map[string]interface{}
+	for i, s := range res.Samples {
+		w, _ := s["witness"].(map[string]interface{})
+		if w == nil {
+			continue
+		}
+		rec, _ := w["rec"].(map[string]interface{})
+		conc, _ := w["concrete"].(map[string]string)
+		if rec == nil {
+			continue
+		}
+		str := func(k string) string { // a recorded string: literal parts and symbolic parts resolved through the concretisation
+			parts, ok := rec[k].([]interface{})
+			if !ok {
+				return fmt.Sprint(rec[k])
+			}
+			out := ""
+			for _, p := range parts {
+				m := p.(map[string]string)
+				switch {
+				case m["lit"] != "":
+					out += m["lit"]
+				case m["sym"] != "":
+					out += conc[m["sym"]]
+				case m["line"] != "":
+					out += conc["line:"+m["line"]]
+				}
+			}
+			return out
+		}
+		c := map[string]interface{}{"id": fmt.Sprintf("%s-%d", res.Cfg.Name, i)}
+		for k, v := range rec {
+			switch v.(type) {
+			case string:
+				c[k] = bvInt(v.(string))
+			default:
+				c[k] = str(k)
+			}
+		}
+		for k, v := range conc {
+			if strings.HasPrefix(k, "line:") {
+				c["line"] = v
+			}
+		}
+		cases = append(cases, c)
+	}
+	if len(cases) == 0 {
+		return 0, "no sampled path carried a witness"
+	}
+	dir := filepath.Join(verifDir, "replays", "last", id)
+	os.MkdirAll(dir, 0755)
+	cf := filepath.Join(dir, "native-cases-"+res.Cfg.Name+".json")
+	b, _ := json.MarshalIndent(cases, "", " ")
+	os.WriteFile(cf, b, 0644)
+	tmpl := filepath.Join(verifDir, "replay", "native", template+"_validate_test.go")
+	ov := filepath.Join(dir, "overlay-"+res.Cfg.Name+".json")
+	ovb, _ := json.Marshal(map[string]map[string]string{"Replace": {filepath.Join(repoDir, "zz_verif_validate_test.go"): tmpl}})
+	os.WriteFile(ov, ovb, 0644)
+	cmd := goCmd(repoDir, "test", "-v", "-vet=off", "-count=1", "-overlay", ov, "-run", "TestVerifValidate", ".")
+	cmd.Env = append(cmd.Env, "VERIF_CASES="+cf)
+	out, _ := cmd.CombinedOutput()
+	agree := len(regexp.MustCompile(`(?m)^VALIDATED `).FindAll(out, -1))
+	var mism []string
+	for _, l := range strings.Split(string(out), "\n") {
+		if strings.HasPrefix(strings.TrimSpace(l), "MISMATCH ") {
+			mism = append(mism, strings.TrimSpace(l))
+		}
+	}
+	if len(mism) > 0 {
+		return agree, "MISMATCH between the engine's prediction and the real build on " + fmt.Sprint(len(mism)) + " sampled path(s): " + strings.Join(mism, " | ")
+	}
+	if agree == 0 {
+		tail := string(out)
+		if len(tail) > 600 {
+			tail = tail[len(tail)-600:]
+		}
+		return 0, "native validation did not run: " + strings.ReplaceAll(tail, "\n", " ")
+	}
+	return agree, fmt.Sprintf("%d sampled passing paths concretised and run through the real Client.Start (go test -overlay, template %s): all agree", agree, template)
+}
+
+var _ = exec.Command
